@@ -222,6 +222,20 @@ def invalid(jp, rec, R, spec):
             cases.append(("lone-low-surrogate", lit(q, "\\u%04x" % lo)))
             cases.append(("lone-low-surrogate", lit(q, "a\\u%04Xb" % lo)))
             cases.append(("lone-low-surrogate", lit(q, "\\u%04x\\ud800" % lo)))
+    # the same classes at the end of (and inside) very long literals
+    for q in "'\"":
+        other = '"' if q == "'" else "'"
+        for n_ in (1023, 1024, 1025, 5000):
+            pad = ("ghijklmnop" * (n_ // 10 + 1))[:n_]   # no hex digits: a pad must not complete a truncated escape
+            for cls, body in [("lone-high-surrogate", "\\uD800"), ("lone-high-surrogate", "\\ud83d\\u0041"), ("lone-low-surrogate", "\\uDE00\\uD83D"), ("lone-low-surrogate", "\\udc00"),
+                              ("unknown-escape", "\\x"), ("unknown-escape", "\\a"), ("raw-control", "\x01"), ("raw-control", "\n"), ("truncated-or-bad-u", "\\u12"),
+                              ("other-quote-escaped", "\\" + other), ("dangling-backslash", "\\")]:
+                if cls == "dangling-backslash":
+                    cases.append((cls + ":long", q + pad + "\\"))
+                    continue
+                cases.append((cls + ":long", lit(q, pad + body)))
+                cases.append((cls + ":long", lit(q, body + pad)))
+                cases.append((cls + ":long", lit(q, pad[:n_ // 2] + body + pad[n_ // 2:])))
     valid = []
     for a, b in itertools.product(BOUNDARY, BOUNDARY):
         hi_a, lo_a = 0xD800 <= a <= 0xDBFF, 0xDC00 <= a <= 0xDFFF
